@@ -47,7 +47,7 @@ HARNESSES = [
 ]
 JOBS = 12
 MANIFEST = {
-  'level_text': 'Bounded model checking of the real Part 21 scanning and literal-buffer kernels: for every byte string within the bound (truncated anywhere) each scanner finishes (unwinding assertions), performs no invalid memory access (CBMC pointer/bounds checks on the translated real code) and leaves the stream inside the input; ReadReal and the Str.cc case helpers are safe for every token length up to the bound, beyond their buffer sizes.',
+  'level_text': 'Bounded model checking of the real Part 21 scanning and literal-buffer kernels: for every byte string within the bound (truncated anywhere) each scanner finishes (unwinding assertions), performs no invalid memory access (CBMC pointer/bounds checks on the translated real code) and leaves the stream inside the input; the recovery scanners built on string literals (SkipInstance, FindStartOfInstance, PushPastAggr1Dim) are checked over a proven string-free contract of GetLiteralStr, and SkipInstance additionally against a functional oracle (success exactly when a semicolon stands outside string literals, stream right behind the first such semicolon); ReadReal and the Str.cc case helpers are safe for every token length up to the bound, beyond their buffer sizes.',
   'level_note': 'Trusted: CBMC, ir2c, vstd (validated per run on samples against a g++/libstdc++ build; counterexamples replayed under ASan/UBSan). BUFSIZ and MAX_COMMENT_LENGTH are shrunk (15 / 6) by a prelude -- the code is parametric in them. Outside: whole-file reads, the complex-entity matcher, generated STEPread_content, writing, time proportional to input beyond per-loop termination.',
   'technique': 'CBMC bounded model checking (built-in memory-safety checks + unwinding assertions) of the IR-translated real scanners with symbolic bytes and lengths; ASan/UBSan replay',
   'design_ref': 'DESIGN.md section 2, C05',
